@@ -5,6 +5,7 @@ import ast
 from ..model import Repo, AnalysisError, norm
 from ..report import Check
 from ..cfg import CFG, ReachingDefs, decompose
+from .shared import guard_atoms
 
 
 def option_fields(repo: Repo):
@@ -138,6 +139,13 @@ class Scanner:
         if not (norm(call.args[1]) == k and norm(call.args[2]) == v):
             return []
         dn = lp.iter.func.value.id
+        # the table under another name:  result = table  on every path (a helper's return value after expansion)
+        lids = [x.id for x in self.cfg.nodes_of(lp.iter)]
+        ds = self.rd.at(lids[0], dn) if lids else []
+        for _hop in range(3):
+            if ds and all(d.kind == "assign" and not d.index and isinstance(d.value, ast.Name) for d in ds) and len({d.value.id for d in ds}) == 1:
+                dn = ds[0].value.id
+                ds = self.rd.at(ds[0].node, dn)
         fills = [st for st in ast.walk(self.fn) if isinstance(st, ast.Assign) and len(st.targets) == 1 and isinstance(st.targets[0], ast.Subscript) and norm(st.targets[0].value) == dn]
         out = []
         for st in fills:
@@ -544,6 +552,9 @@ def _provenance(sc, e, nid, depth=0):
         if len(ds) == 1:
             d = ds[0]
             if d.kind == "for":
+                v_ = d.value
+                if isinstance(v_, ast.Call) and norm(v_.func) == "map" and len(v_.args) == 2 and norm(v_.args[0]) in ("str.strip", "str.lstrip", "str.rstrip"):
+                    return [norm(v_.args[0])[4:], "for:" + norm(v_.args[1])]      # every line stripped, then iterated
                 return ["for:" + norm(d.value)]
             if d.kind == "assign" and d.value is not None and not d.index:
                 return ["alias"] + _provenance(sc, d.value, d.node, depth + 1) if isinstance(d.value, ast.Name) else _provenance(sc, d.value, d.node, depth + 1)
@@ -562,7 +573,13 @@ def r15e(sc: Scanner, chk: Check, rule: str):
             # loop contains the setattr?
             if any(x is call for x in ast.walk(lp.stmt)):
                 scan_loops.append(lp)
-    line_loops = [lp for lp in loops if norm(lp.stmt.iter).endswith(".splitlines()") or ".split(" in norm(lp.stmt.iter) and "\\n" in norm(lp.stmt.iter)]
+    def _lines_of(it):
+        t_ = norm(it)
+        if t_.endswith(".splitlines()") or ".split(" in t_ and "\\n" in t_:
+            return True
+        # the lines passed through an order-preserving wrapper: map(str.strip, X.splitlines()), enumerate(..), iter(..)
+        return isinstance(it, ast.Call) and norm(it.func) in ("map", "enumerate", "iter", "list", "tuple") and it.args and _lines_of(it.args[-1])
+    line_loops = [lp for lp in loops if _lines_of(lp.stmt.iter)]
     outside = [call for n, call in sc.setattrs if not any(any(x is call for x in ast.walk(lp.stmt)) for lp in line_loops)]
     for call in outside:
         # applied after the scan from a collection: accepted only for ONE loop over a list of (name, value) pairs built in scan order
@@ -582,6 +599,11 @@ def r15e(sc: Scanner, chk: Check, rule: str):
                 and isinstance(lp.stmt.iter.func.value, ast.Name) and isinstance(lp.stmt.target, ast.Tuple) and len(lp.stmt.target.elts) == 2:
             dn = lp.stmt.iter.func.value.id
             ds = sc.rd.at(lp.id, dn)
+            # the table under another name:  result = table   on every path (a helper's return value after expansion)
+            for _hop in range(3):
+                if ds and all(d.kind == "assign" and not d.index and isinstance(d.value, ast.Name) for d in ds) and len({d.value.id for d in ds}) == 1:
+                    dn = ds[0].value.id
+                    ds = sc.rd.at(ds[0].node, dn)
             empty = bool(ds) and all(d.kind == "assign" and (isinstance(d.value, ast.Dict) and not d.value.keys or isinstance(d.value, ast.Call) and norm(d.value) == "dict()") for d in ds)
             fills = [st for st in ast.walk(sc.fn) if isinstance(st, ast.Assign) and any(isinstance(t, ast.Subscript) and norm(t.value) == dn for t in st.targets)]
             others = [c for c in ast.walk(sc.fn) if isinstance(c, ast.Call) and isinstance(c.func, ast.Attribute) and norm(c.func.value) == dn and c.func.attr not in ("items", "get", "keys", "values")]
@@ -698,20 +720,55 @@ def r15e(sc: Scanner, chk: Check, rule: str):
     if inner_lines and not (norm(outer.stmt.iter).endswith(".splitlines()")):
         scan_outer = inner_lines[0]
     outer_iter = scan_outer.stmt.iter
+    # through order-preserving wrappers to  <text>.splitlines()
+    while isinstance(outer_iter, ast.Call) and norm(outer_iter.func) in ("map", "enumerate", "iter", "list", "tuple") and outer_iter.args:
+        outer_iter = outer_iter.args[-1]
     base = None
-    if isinstance(outer_iter, ast.Call) and isinstance(outer_iter.func, ast.Attribute) and isinstance(outer_iter.func.value, ast.Name):
+    if isinstance(outer_iter, ast.Call) and isinstance(outer_iter.func, ast.Attribute) and outer_iter.func.attr in ("splitlines", "split") and isinstance(outer_iter.func.value, ast.Name):
         base = outer_iter.func.value.id
     ok = False
     detail = None
+    if base is None:
+        chk.unresolved(rule, "compiler:compile_code:scanned text is the main source", f"the loop that reads the directives iterates over {norm(scan_outer.stmt.iter)[:60]}: "
+                       "which text that is was not determined", sc.where)
+        return
     if base:
         ids = [x.id for x in cfg.nodes_of(outer_iter)]
-        d = sc.single_def(base, ids[0]) if ids else None
-        if d is not None and d.value is not None:
-            detail = norm(d.value)
-            v = d.value
-            ok = isinstance(v, ast.IfExp) and {norm(v.body), norm(v.orelse)} == {f"{sc.src_param}['']", sc.src_param} and (
-                (norm(v.test) == f"isinstance({sc.src_param}, dict)" and norm(v.body) == f"{sc.src_param}['']") or
-                (norm(v.test) == f"not isinstance({sc.src_param}, dict)" and norm(v.orelse) == f"{sc.src_param}['']"))
+        ds = sc.rd.at(ids[0], base) if ids else []
+        isdict = f"isinstance({sc.src_param}, dict)"
+
+        def main_text(v, pol):
+            """v is the main module's text, given that isinstance(src, dict) is pol (None: unknown)"""
+            if isinstance(v, ast.IfExp):
+                if norm(v.test) == isdict:
+                    return main_text(v.body, True) and main_text(v.orelse, False)
+                if norm(v.test) == "not " + isdict:
+                    return main_text(v.body, False) and main_text(v.orelse, True)
+                unknown.append(norm(v))
+                return False
+            if norm(v) == f"{sc.src_param}['']":
+                return pol is True
+            if norm(v) == sc.src_param:
+                return pol is False
+            if not (isinstance(v, ast.Subscript) and norm(v.value) == sc.src_param):
+                unknown.append(norm(v))      # neither the source nor one of its modules: not judged here
+            return False
+        unknown = []
+        if ds and base != sc.src_param:
+            detail = " | ".join(norm(d.value) if d.value is not None else d.kind for d in ds)
+            ok = True
+            for d in ds:
+                if d.kind != "assign" or d.index or d.value is None:
+                    ok = False
+                    continue
+                pol = None
+                for t, pp in guard_atoms(cfg, d.node):
+                    if norm(t) == isdict:
+                        pol = pp
+                ok = ok and main_text(d.value, pol)
         elif base == sc.src_param:
             ok, detail = False, base
+    if not ok and unknown:
+        chk.unresolved(rule, "compiler:compile_code:scanned text is the main source", f"the scanned text is {detail}: not recognised as the source or one of its modules", sc.where)
+        return
     chk.judge(rule, "compiler:compile_code:scanned text is the main source", ok, f"scanner iterates over {detail}", {"text": detail}, sc.where)
